@@ -40,7 +40,9 @@ def unary_ops(ctx, v):
            'object_delete {} %s' % ks, 'object_pick {} %s' % ks, 'exists_all_keys {} _', 'exists_any_keys {} _',
            'exists_all_keys {} %s' % (k + ',' + k + ',' + k), 'exists_any_keys {} %s' % (k + ',' + k),
            'get_by_name {} %s 1' % gen.hexarg(bytes(gen.unhexarg(k)).decode('utf-8', 'ignore').swapcase().encode() or b'x'), 'strip_nulls {}', 'path_exists {} %s' % p, 'path_match {} %s' % p,
-           'get_by_path {} %s' % p, 'get_by_path_first {} %s' % p, 'get_by_path_array {} %s' % p, 'parse_lazy_value {}']
+           'get_by_path {} %s' % p, 'get_by_path_first {} %s' % p, 'get_by_path_array {} %s' % p, 'parse_lazy_value {}',
+           'get_by_path {} R', 'get_by_path_first {} R', 'get_by_path_array {} R', 'path_exists {} R', 'get_by_keypath {} _',
+           'delete_by_keypath {} _', 'object_delete {} _', 'object_pick {} _']
     return ops
 
 
